@@ -16,6 +16,7 @@ import (
 
 	v2 "mosn.io/mosn/pkg/config/v2"
 
+	"verif/ev"
 	"verif/rig/codec"
 	"verif/rig/mesh"
 )
@@ -331,13 +332,71 @@ func (r *run) serveBolt(host, conn int, c net.Conn) {
 	}
 }
 
-// deadAddr binds a loopback port without listening on it: connecting is refused, and nobody else can take the port.
-func deadAddr() (string, func(), error) {
+// upHost is one upstream socket of a scenario. Every scenario gets its own loopback address
+// (127.a.b.c): its listeners never compete for ports with anything else on the machine, which matters
+// when many checks run at once and tens of thousands of TIME_WAIT sockets sit on 127.0.0.1.
+type upHost struct {
+	ln    net.Listener
+	addr  string
+	mu    sync.Mutex
+	conns map[int]net.Conn
+	seq   int
+	wg    sync.WaitGroup
+}
+
+func newUpHost(ip [4]byte, handle func(conn int, c net.Conn)) (*upHost, error) {
+	ln, err := net.Listen("tcp", fmt.Sprintf("%d.%d.%d.%d:0", ip[0], ip[1], ip[2], ip[3]))
+	if err != nil {
+		return nil, err
+	}
+	u := &upHost{ln: ln, addr: ln.Addr().String(), conns: map[int]net.Conn{}}
+	go func() {
+		for {
+			c, err := ln.Accept()
+			if err != nil {
+				return
+			}
+			u.mu.Lock()
+			u.seq++
+			id := u.seq
+			u.conns[id] = c
+			u.mu.Unlock()
+			u.wg.Add(1)
+			go func() {
+				defer u.wg.Done()
+				handle(id, c)
+				u.mu.Lock()
+				delete(u.conns, id)
+				u.mu.Unlock()
+				rstClose(c) // RST, never FIN first: leaves no TIME_WAIT socket behind
+			}()
+		}
+	}()
+	return u, nil
+}
+
+// kill resets every live connection.
+func (u *upHost) kill() {
+	u.mu.Lock()
+	defer u.mu.Unlock()
+	for _, c := range u.conns {
+		rstClose(c)
+	}
+}
+
+func (u *upHost) close() {
+	_ = u.ln.Close()
+	u.kill()
+	u.wg.Wait()
+}
+
+// deadAddr binds a port without listening on it: connecting is refused, and nobody else can take the port.
+func deadAddr(ip [4]byte) (string, func(), error) {
 	fd, err := syscall.Socket(syscall.AF_INET, syscall.SOCK_STREAM, 0)
 	if err != nil {
 		return "", nil, err
 	}
-	if err := syscall.Bind(fd, &syscall.SockaddrInet4{Addr: [4]byte{127, 0, 0, 1}}); err != nil {
+	if err := syscall.Bind(fd, &syscall.SockaddrInet4{Addr: ip}); err != nil {
 		_ = syscall.Close(fd)
 		return "", nil, err
 	}
@@ -347,7 +406,7 @@ func deadAddr() (string, func(), error) {
 		return "", nil, err
 	}
 	port := sa.(*syscall.SockaddrInet4).Port
-	return fmt.Sprintf("127.0.0.1:%d", port), func() { _ = syscall.Close(fd) }, nil
+	return fmt.Sprintf("%d.%d.%d.%d:%d", ip[0], ip[1], ip[2], ip[3], port), func() { _ = syscall.Close(fd) }, nil
 }
 
 // ---------------------------------------------------------------- scheduling-delay monitor
@@ -594,46 +653,68 @@ func runScenario(sc *Scenario) (res *result) {
 	uniq := mesh.Uniq()
 	r := &run{sc: sc, tok: fmt.Sprintf("t%d", uniq), done: make(chan struct{}), poison: map[[2]int]bool{}}
 	res = &result{Token: r.tok}
-	var cleanup []func()
+	var (
+		ups     []*upHost
+		closers []func()
+		cs      *mesh.Case
+		cl      *client
+		closed  = true
+	)
 	defer func() {
+		if p := recover(); p != nil { // a harness-side resource failure must never look like a crash of the code under test
+			res.Infra = fmt.Sprintf("harness panic: %v", p)
+		}
 		close(r.done)
-		for i := len(cleanup) - 1; i >= 0; i-- {
-			cleanup[i]()
+		if cl != nil && !closed {
+			cl.close(true)
+		}
+		for _, u := range ups { // reset upstream connections before MOSN gets to close them: no TIME_WAIT sockets
+			u.kill()
+		}
+		if cs != nil {
+			cs.Close()
+		}
+		for _, u := range ups {
+			u.close()
+		}
+		for _, f := range closers {
+			f()
 		}
 	}()
 
+	shard, _ := ev.Shard()
+	ip := [4]byte{127, byte(16 + shard%100), byte(1 + (uniq/250)%250), byte(1 + uniq%250)}
 	var hosts []string
 	for i, kind := range sc.Hosts {
-		i := i
-		switch kind {
-		case "dead":
-			addr, closer, err := deadAddr()
+		i, kind := i, kind
+		if kind == "dead" {
+			addr, closer, err := deadAddr(ip)
 			if err != nil {
 				res.Infra = "dead host: " + err.Error()
 				return
 			}
 			hosts = append(hosts, addr)
-			cleanup = append(cleanup, closer)
-		default:
-			u := mesh.NewUpstream("tcp", nil)
-			u.OnConn = func(conn int, c net.Conn) {
-				if sc.Proto == "Http1" {
-					r.serveH1(i, conn, c)
-				} else {
-					r.serveBolt(i, conn, c)
-				}
-			}
-			if kind == "rst" {
-				u.OnConn = func(conn int, c net.Conn) {
-					r.mu.Lock()
-					r.rstAt = append(r.rstAt, time.Now())
-					r.mu.Unlock()
-					rstClose(c)
-				}
-			}
-			hosts = append(hosts, u.Addr)
-			cleanup = append(cleanup, u.Close)
+			closers = append(closers, closer)
+			continue
 		}
+		u, err := newUpHost(ip, func(conn int, c net.Conn) {
+			switch {
+			case kind == "rst":
+				r.mu.Lock()
+				r.rstAt = append(r.rstAt, time.Now())
+				r.mu.Unlock()
+			case sc.Proto == "Http1":
+				r.serveH1(i, conn, c)
+			default:
+				r.serveBolt(i, conn, c)
+			}
+		})
+		if err != nil {
+			res.Infra = "upstream socket: " + err.Error()
+			return
+		}
+		ups = append(ups, u)
+		hosts = append(hosts, u.addr)
 	}
 
 	retry := &v2.RetryPolicy{RetryPolicyConfig: v2.RetryPolicyConfig{RetryOn: sc.RetryOn, NumRetries: uint32(sc.NumRetries)},
@@ -650,24 +731,27 @@ func runScenario(sc *Scenario) (res *result) {
 			return rs
 		}
 	}
-	cs, err := mesh.NewCaseBound(opts)
-	if err != nil {
-		res.Infra = "new case: " + err.Error()
-		return
+	var err error
+	for try := 0; ; try++ {
+		cs, err = mesh.NewCaseBound(opts)
+		if err == nil {
+			break
+		}
+		// the proxy's own listener lives on 127.0.0.1: when other jobs have exhausted its ports, wait for TIME_WAIT sockets to expire
+		if try >= 40 || !strings.Contains(err.Error(), "address already in use") {
+			res.Infra = "new case: " + err.Error()
+			return
+		}
+		time.Sleep(500 * time.Millisecond)
 	}
-	cleanup = append(cleanup, cs.Close)
 
-	cl, err := dialClient(sc.Proto, cs.Addr)
+	cl, err = dialClient(sc.Proto, cs.Addr)
 	if err != nil {
+		cl = nil
 		res.Infra = "dial: " + err.Error()
 		return
 	}
-	closed := false
-	cleanup = append(cleanup, func() {
-		if !closed {
-			cl.close(false)
-		}
-	})
+	closed = false
 
 	base := 0 // responses that belong to the warm-up exchange
 	if sc.Warm && sc.Special == "" && sc.allLive() {
@@ -778,7 +862,7 @@ func runScenario(sc *Scenario) (res *result) {
 		if end != "" {
 			res.ConnEnd, res.ConnEndUs, res.Leftover = end, rel(endAt), left
 		}
-		cl.close(false)
+		cl.close(true)
 		closed = true
 	}
 	cl.mu.Lock()
@@ -820,7 +904,7 @@ func (r *run) liveness(addr string) string {
 	if err != nil {
 		return "dial-failed"
 	}
-	defer cl.close(false)
+	defer cl.close(true)
 	_ = cl.send(r.request("l"+r.tok, idProbe, false, true))
 	if cl.waitN(1, time.Now().Add(5*time.Second)) {
 		return "proxy-alive"
